@@ -285,6 +285,10 @@ func div(rawNums ...vals.Num) (vals.Num, error) {
 		}
 	}
 	if rawNums[0] == 0 {
+		if len(rawNums) == 1 {
+			// The reciprocal of exact 0: "/ $y" is equivalent to "/ 1 $y".
+			return nil, ErrDivideByZero
+		}
 		return 0, nil
 	}
 	nums := vals.UnifyNums(rawNums, vals.BigRat)
